@@ -1,6 +1,490 @@
-//! (stub) — not generated yet.
-use super::{GenFile, Repo};
+//! `Gen/Ranges.lean`: statement-by-statement translation of the three range functions
+//!
+//! * `bytes::simplify_range_mono`   (src/bytes.rs)       — used by every `slice`/`try_slice`
+//! * `common::range_mono`           (src/common.rs)      — used by the vectors (drain, …)
+//! * `bytes::raw::try_range_of`     (src/bytes/raw.rs)   — used by `try_slice_ref`/`slice_ref`
+//!
+//! into the overflow-tracking monad `R ε α` of `HipVerif/Model/RangeTy.lean`.
+//!
+//! The supported Rust subset is deliberately tiny; anything else is a translator failure:
+//! `let` (ident or `Range { start, end }` pattern, optional type ascription), `match` on a
+//! `Bound`, `if / else if / else`, early `return` inside an `if` without `else`, `unsafe { e }`,
+//! `+` (unchecked → `uadd`, may overflow), comparisons, `||`, `&&`, integer literals, paths,
+//! tuples, `Range { start, end }` / `a..b` (→ pairs), enum variants (unit, tuple, struct-like),
+//! `Ok`/`Err`/`Some`/`None`, `?`, and the method calls `saturating_add`, `checked_add`,
+//! `wrapping_add`, `ok_or`, `len`, `as_ptr`, `as_ptr_range`, `offset_from`, `try_into`,
+//! `unwrap_unchecked`.
 
-pub fn generate(_repo: &Repo) -> Result<Vec<GenFile>, String> {
-    Ok(vec![])
+use syn::{BinOp, Block, Expr, FnArg, ItemFn, Pat, ReturnType, Stmt, Type};
+
+use super::repo::loc;
+use super::{GenFile, Repo, HEADER};
+
+const LEAN_KEYWORDS: &[&str] = &[
+    "end", "do", "then", "else", "from", "at", "in", "fun", "let", "have", "show", "with", "by",
+    "if", "match", "open", "def", "theorem", "where", "structure", "instance", "class", "start",
+];
+
+fn ident(s: &str) -> String {
+    if LEAN_KEYWORDS.contains(&s) && s != "start" {
+        format!("{s}_")
+    } else {
+        s.to_string()
+    }
+}
+
+fn lower_camel(s: &str) -> String {
+    let mut c = s.chars();
+    match c.next() {
+        Some(f) => f.to_lowercase().collect::<String>() + c.as_str(),
+        None => String::new(),
+    }
+}
+
+#[derive(Clone, Copy, PartialEq)]
+enum RetKind {
+    /// `Result<T, E>`: `Ok(v)` → `pure v`, `Err(e)` → `R.err e`
+    Result,
+    /// `Option<T>`: plain value `some v` / `none`
+    Option,
+}
+
+struct Tr<'a> {
+    file: &'a super::repo::SrcFile,
+    ret: RetKind,
+    fresh: std::cell::Cell<usize>,
+}
+
+/// A translated expression: `term` is a Lean term; when `pure` it has the value type,
+/// otherwise it has type `R ε T` and must be bound.
+struct Te {
+    term: String,
+    pure: bool,
+}
+
+impl Te {
+    fn pure(s: impl Into<String>) -> Te {
+        Te { term: s.into(), pure: true }
+    }
+    fn eff(s: impl Into<String>) -> Te {
+        Te { term: s.into(), pure: false }
+    }
+    /// as a monadic term
+    fn m(&self) -> String {
+        if self.pure {
+            format!("(pure ({}))", self.term)
+        } else {
+            format!("({})", self.term)
+        }
+    }
+}
+
+impl<'a> Tr<'a> {
+    fn fail<T>(&self, span: proc_macro2::Span, what: &str) -> Result<T, String> {
+        Err(format!("Gen/Ranges: unsupported {what} at {}", loc(self.file, span)))
+    }
+
+    /// Binds the effectful operands to fresh names, then builds the result.
+    fn with_bound(&self, parts: Vec<Te>, build: impl FnOnce(&[String]) -> Te) -> Te {
+        let mut binds = String::new();
+        let mut names = vec![];
+        for p in parts.iter() {
+            if p.pure {
+                names.push(format!("({})", p.term));
+            } else {
+                let k = self.fresh.get();
+                self.fresh.set(k + 1);
+                let n = format!("t{k}_");
+                binds.push_str(&format!("let {n} ← ({}); ", p.term));
+                names.push(n);
+            }
+        }
+        let inner = build(&names);
+        if binds.is_empty() {
+            inner
+        } else {
+            Te::eff(format!("(do {binds}{})", inner.m()))
+        }
+    }
+
+    fn path_last2(&self, p: &syn::Path) -> (Option<String>, String) {
+        let segs: Vec<String> = p.segments.iter().map(|s| s.ident.to_string()).collect();
+        let last = segs.last().cloned().unwrap_or_default();
+        let prev = if segs.len() >= 2 { Some(segs[segs.len() - 2].clone()) } else { None };
+        (prev, last)
+    }
+
+    fn expr(&self, e: &Expr) -> Result<Te, String> {
+        use syn::spanned::Spanned;
+        match e {
+            Expr::Paren(p) => self.expr(&p.expr),
+            Expr::Group(g) => self.expr(&g.expr),
+            Expr::Lit(l) => match &l.lit {
+                syn::Lit::Int(i) => Ok(Te::pure(i.base10_digits().to_string())),
+                _ => self.fail(l.span(), "literal"),
+            },
+            Expr::Path(p) => {
+                let (prev, last) = self.path_last2(&p.path);
+                match (prev.as_deref(), last.as_str()) {
+                    (None, "None") => Ok(Te::pure("none")),
+                    (None, v) => Ok(Te::pure(ident(v))),
+                    (Some("usize"), "MAX") => Ok(Te::pure("(U - 1)")),
+                    (Some(_), v) => Ok(Te::pure(format!(".{}", lower_camel(v)))),
+                }
+            }
+            Expr::Unsafe(u) => self.block_value(&u.block),
+            Expr::Block(b) => self.block_value(&b.block),
+            Expr::Tuple(t) => {
+                let parts = t.elems.iter().map(|x| self.expr(x)).collect::<Result<Vec<_>, _>>()?;
+                Ok(self.with_bound(parts, |n| Te::pure(format!("({})", n.join(", ")))))
+            }
+            Expr::Range(r) => {
+                let (Some(a), Some(b)) = (&r.start, &r.end) else {
+                    return self.fail(r.span(), "open range expression");
+                };
+                if !matches!(r.limits, syn::RangeLimits::HalfOpen(_)) {
+                    return self.fail(r.span(), "inclusive range expression");
+                }
+                let parts = vec![self.expr(a)?, self.expr(b)?];
+                Ok(self.with_bound(parts, |n| Te::pure(format!("({}, {})", n[0], n[1]))))
+            }
+            Expr::Struct(s) => {
+                let (_, last) = self.path_last2(&s.path);
+                let fields = s
+                    .fields
+                    .iter()
+                    .map(|f| self.expr(&f.expr))
+                    .collect::<Result<Vec<_>, _>>()?;
+                if last == "Range" {
+                    // fields must be start, end in that order
+                    let names: Vec<String> = s
+                        .fields
+                        .iter()
+                        .map(|f| match &f.member {
+                            syn::Member::Named(i) => i.to_string(),
+                            _ => String::new(),
+                        })
+                        .collect();
+                    if names != ["start", "end"] {
+                        return self.fail(s.span(), "Range literal field order");
+                    }
+                    Ok(self.with_bound(fields, |n| Te::pure(format!("({}, {})", n[0], n[1]))))
+                } else {
+                    let ctor = lower_camel(&last);
+                    Ok(self.with_bound(fields, |n| Te::pure(format!("(.{ctor} {})", n.join(" ")))))
+                }
+            }
+            Expr::Binary(b) => {
+                let l = self.expr(&b.left)?;
+                let r = self.expr(&b.right)?;
+                let parts = vec![l, r];
+                let op = match &b.op {
+                    BinOp::Add(_) => return Ok(self.with_bound(parts, |n| Te::eff(format!("uadd {} {}", n[0], n[1])))),
+                    BinOp::Sub(_) => return Ok(self.with_bound(parts, |n| Te::eff(format!("usub {} {}", n[0], n[1])))),
+                    BinOp::Mul(_) => return Ok(self.with_bound(parts, |n| Te::eff(format!("umul {} {}", n[0], n[1])))),
+                    BinOp::Lt(_) => "<",
+                    BinOp::Le(_) => "≤",
+                    BinOp::Gt(_) => ">",
+                    BinOp::Ge(_) => "≥",
+                    BinOp::Eq(_) => "==",
+                    BinOp::Ne(_) => "!=",
+                    BinOp::Or(_) => "||",
+                    BinOp::And(_) => "&&",
+                    _ => return self.fail(b.span(), "binary operator"),
+                };
+                Ok(self.with_bound(parts, |n| match op {
+                    "||" | "&&" | "==" | "!=" => Te::pure(format!("({} {op} {})", n[0], n[1])),
+                    _ => Te::pure(format!("(decide ({} {op} {}))", n[0], n[1])),
+                }))
+            }
+            Expr::Call(c) => {
+                let Expr::Path(p) = &*c.func else {
+                    return self.fail(c.span(), "call target");
+                };
+                let (prev, last) = self.path_last2(&p.path);
+                let args = c.args.iter().map(|a| self.expr(a)).collect::<Result<Vec<_>, _>>()?;
+                match (prev.as_deref(), last.as_str()) {
+                    (None, "Ok") if self.ret == RetKind::Result && args.len() == 1 => {
+                        Ok(self.with_bound(args, |n| Te::eff(format!("R.ok {}", n[0]))))
+                    }
+                    (None, "Err") if self.ret == RetKind::Result && args.len() == 1 => {
+                        Ok(self.with_bound(args, |n| Te::eff(format!("R.err {}", n[0]))))
+                    }
+                    (None, "Some") if args.len() == 1 => {
+                        Ok(self.with_bound(args, |n| Te::pure(format!("(some {})", n[0]))))
+                    }
+                    (Some(_), v) => {
+                        // tuple enum variant
+                        let ctor = lower_camel(v);
+                        Ok(self.with_bound(args, |n| Te::pure(format!("(.{ctor} {})", n.join(" ")))))
+                    }
+                    _ => self.fail(c.span(), "call"),
+                }
+            }
+            Expr::MethodCall(mc) => {
+                let recv = self.expr(&mc.receiver)?;
+                let mut parts = vec![recv];
+                for a in &mc.args {
+                    parts.push(self.expr(a)?);
+                }
+                let name = mc.method.to_string();
+                let nargs = mc.args.len();
+                let t = match (name.as_str(), nargs) {
+                    ("saturating_add", 1) => self.with_bound(parts, |n| Te::pure(format!("(satAdd {} {})", n[0], n[1]))),
+                    ("wrapping_add", 1) => self.with_bound(parts, |n| Te::pure(format!("(wrapAdd {} {})", n[0], n[1]))),
+                    ("checked_add", 1) => self.with_bound(parts, |n| Te::pure(format!("(checkedAdd {} {})", n[0], n[1]))),
+                    ("ok_or", 1) => self.with_bound(parts, |n| Te::pure(format!("(okOr {} {})", n[0], n[1]))),
+                    ("len", 0) => self.with_bound(parts, |n| Te::pure(format!("{}.len", n[0]))),
+                    ("as_ptr", 0) => self.with_bound(parts, |n| Te::pure(format!("{}.ptr", n[0]))),
+                    ("as_ptr_range", 0) => self.with_bound(parts, |n| Te::pure(format!("(ptrRange {})", n[0]))),
+                    ("offset_from", 1) => self.with_bound(parts, |n| Te::pure(format!("(offsetFrom {} {})", n[0], n[1]))),
+                    ("try_into", 0) => self.with_bound(parts, |n| Te::pure(format!("(tryIntoUsize {})", n[0]))),
+                    ("unwrap_unchecked", 0) => self.with_bound(parts, |n| Te::eff(format!("unwrapUnchecked {}", n[0]))),
+                    _ => return self.fail(mc.span(), &format!("method call `{name}`")),
+                };
+                Ok(t)
+            }
+            Expr::Try(t) => {
+                // `e?` where e : Result-like value (`okOr …`) → bind through `R.ofExcept`
+                let inner = self.expr(&t.expr)?;
+                Ok(self.with_bound(vec![inner], |n| Te::eff(format!("R.ofExcept {}", n[0]))))
+            }
+            Expr::Match(m) => {
+                let scrut = self.expr(&m.expr)?;
+                let mut arms = String::new();
+                for arm in &m.arms {
+                    if arm.guard.is_some() {
+                        return self.fail(arm.span(), "match guard");
+                    }
+                    let pat = self.pattern(&arm.pat)?;
+                    let body = self.expr(&arm.body)?;
+                    arms.push_str(&format!("\n      | {pat} => {}", body.m()));
+                }
+                Ok(self.with_bound(vec![scrut], |n| Te::eff(format!("(match {} with{arms})", n[0]))))
+            }
+            Expr::If(i) => {
+                let c = self.expr(&i.cond)?;
+                let then = self.block_value(&i.then_branch)?;
+                let Some((_, els)) = &i.else_branch else {
+                    return self.fail(i.span(), "`if` without `else` in value position");
+                };
+                let els = self.expr(els)?;
+                Ok(self.with_bound(vec![c], |n| {
+                    Te::eff(format!("if {} then {}\n    else {}", n[0], then.m(), els.m()))
+                }))
+            }
+            Expr::Return(r) => {
+                let Some(v) = &r.expr else {
+                    return self.fail(r.span(), "bare return");
+                };
+                self.expr(v)
+            }
+            _ => self.fail(e.span(), "expression"),
+        }
+    }
+
+    fn pattern(&self, p: &Pat) -> Result<String, String> {
+        use syn::spanned::Spanned;
+        match p {
+            Pat::TupleStruct(ts) => {
+                let (_, last) = self.path_last2(&ts.path);
+                let mut args = vec![];
+                for e in &ts.elems {
+                    match e {
+                        Pat::Ident(i) => args.push(ident(&i.ident.to_string())),
+                        Pat::Wild(_) => args.push("_".into()),
+                        _ => return self.fail(e.span(), "nested pattern"),
+                    }
+                }
+                Ok(format!(".{} {}", lower_camel(&last), args.join(" ")))
+            }
+            Pat::Path(pp) => {
+                let (_, last) = self.path_last2(&pp.path);
+                Ok(format!(".{}", lower_camel(&last)))
+            }
+            Pat::Ident(i) => {
+                // a bare upper-case identifier is a unit variant brought in scope; lower-case binds
+                Ok(ident(&i.ident.to_string()))
+            }
+            _ => self.fail(p.span(), "pattern"),
+        }
+    }
+
+    /// Translates a block used as a value: statements then a tail expression,
+    /// with `if c { return e; }` turned into `if c then e else <rest>`.
+    fn block_value(&self, b: &Block) -> Result<Te, String> {
+        self.stmts(&b.stmts)
+    }
+
+    fn stmts(&self, stmts: &[Stmt]) -> Result<Te, String> {
+        use syn::spanned::Spanned;
+        let Some((first, rest)) = stmts.split_first() else {
+            return Err(format!("Gen/Ranges: empty block in {}", self.file.rel));
+        };
+        match first {
+            Stmt::Local(l) => {
+                let Some(init) = &l.init else {
+                    return self.fail(l.span(), "let without initialiser");
+                };
+                if init.diverge.is_some() {
+                    return self.fail(l.span(), "let-else");
+                }
+                let value = self.expr(&init.expr)?;
+                let pat = match &l.pat {
+                    Pat::Ident(i) => ident(&i.ident.to_string()),
+                    Pat::Type(pt) => match &*pt.pat {
+                        Pat::Ident(i) => ident(&i.ident.to_string()),
+                        _ => return self.fail(l.span(), "let pattern"),
+                    },
+                    Pat::Struct(ps) => {
+                        let (_, last) = self.path_last2(&ps.path);
+                        if last != "Range" {
+                            return self.fail(l.span(), "struct pattern");
+                        }
+                        let names: Vec<String> = ps
+                            .fields
+                            .iter()
+                            .map(|f| match &f.member {
+                                syn::Member::Named(i) => i.to_string(),
+                                _ => String::new(),
+                            })
+                            .collect();
+                        if names != ["start", "end"] {
+                            return self.fail(l.span(), "Range pattern field order");
+                        }
+                        "(start, end_)".to_string()
+                    }
+                    _ => return self.fail(l.span(), "let pattern"),
+                };
+                let k = self.stmts(rest)?;
+                let bind = if value.pure {
+                    format!("let {pat} := {};", value.term)
+                } else {
+                    format!("let {pat} ← {};", value.term)
+                };
+                Ok(Te::eff(format!("do\n    {bind}\n    {}", k.m())))
+            }
+            Stmt::Expr(e, semi) => {
+                if rest.is_empty() {
+                    if semi.is_some() {
+                        return self.fail(e.span(), "block ending in a statement");
+                    }
+                    return self.expr(e);
+                }
+                // only `if c { return v; }` may be followed by more statements
+                if let Expr::If(i) = e {
+                    if i.else_branch.is_none() {
+                        let c = self.expr(&i.cond)?;
+                        let then = self.early_return_block(&i.then_branch)?;
+                        let k = self.stmts(rest)?;
+                        return Ok(self.with_bound(vec![c], |n| {
+                            Te::eff(format!("if {} then {}\n    else {}", n[0], then.m(), k.m()))
+                        }));
+                    }
+                }
+                self.fail(e.span(), "statement")
+            }
+            _ => self.fail(first.span(), "statement kind"),
+        }
+    }
+
+    fn early_return_block(&self, b: &Block) -> Result<Te, String> {
+        use syn::spanned::Spanned;
+        if b.stmts.len() != 1 {
+            return self.fail(b.span(), "early-return block");
+        }
+        match &b.stmts[0] {
+            Stmt::Expr(Expr::Return(r), _) => {
+                let Some(v) = &r.expr else {
+                    return self.fail(r.span(), "bare return");
+                };
+                self.expr(v)
+            }
+            other => self.fail(other.span(), "early-return block"),
+        }
+    }
+}
+
+fn find_fn<'a>(file: &'a super::repo::SrcFile, name: &str) -> Result<&'a ItemFn, String> {
+    for item in &file.ast.items {
+        if let syn::Item::Fn(f) = item {
+            if f.sig.ident == name {
+                return Ok(f);
+            }
+        }
+    }
+    Err(format!("Gen/Ranges: fn {name} not found in {}", file.rel))
+}
+
+fn type_string(t: &Type) -> String {
+    quote::quote!(#t).to_string().replace(' ', "")
+}
+
+/// `(lean param list, return kind, lean return type)`
+fn signature(file: &super::repo::SrcFile, f: &ItemFn) -> Result<(String, RetKind, String), String> {
+    use syn::spanned::Spanned;
+    let mut params = vec![];
+    for a in &f.sig.inputs {
+        let FnArg::Typed(pt) = a else {
+            return Err(format!("Gen/Ranges: receiver at {}", loc(file, a.span())));
+        };
+        let Pat::Ident(pi) = &*pt.pat else {
+            return Err(format!("Gen/Ranges: parameter pattern at {}", loc(file, a.span())));
+        };
+        let ty = match type_string(&pt.ty).as_str() {
+            "Bound<usize>" => "Bound",
+            "usize" => "Nat",
+            "&[u8]" => "Slice",
+            other => {
+                return Err(format!(
+                    "Gen/Ranges: parameter type {other} at {}",
+                    loc(file, a.span())
+                ))
+            }
+        };
+        params.push(format!("({} : {ty})", ident(&pi.ident.to_string())));
+    }
+    let ReturnType::Type(_, rt) = &f.sig.output else {
+        return Err(format!("Gen/Ranges: no return type at {}", loc(file, f.sig.span())));
+    };
+    let (kind, lean) = match type_string(rt).as_str() {
+        "Result<Range<usize>,(usize,usize,SliceErrorKind)>" => {
+            (RetKind::Result, "R (Nat × Nat × SliceErrorKind) (Nat × Nat)")
+        }
+        "Result<Range<usize>,RangeError>" => (RetKind::Result, "R RangeError (Nat × Nat)"),
+        "Option<Range<usize>>" => (RetKind::Option, "R Unit (Option (Nat × Nat))"),
+        other => {
+            return Err(format!(
+                "Gen/Ranges: return type {other} at {}",
+                loc(file, f.sig.span())
+            ))
+        }
+    };
+    Ok((params.join(" "), kind, lean.to_string()))
+}
+
+fn translate(repo: &Repo, rel: &str, name: &str, lean_name: &str) -> Result<String, String> {
+    let file = repo.file(rel)?;
+    let f = find_fn(file, name)?;
+    let (params, kind, ret) = signature(file, f)?;
+    let tr = Tr { file, ret: kind, fresh: std::cell::Cell::new(0) };
+    let body = tr.stmts(&f.block.stmts)?;
+    use syn::spanned::Spanned;
+    Ok(format!(
+        "/-- `{name}` — {} -/\ndef {lean_name} {params} : {ret} :=\n  {}\n",
+        loc(file, f.span()),
+        body.m()
+    ))
+}
+
+pub fn generate(repo: &Repo) -> Result<Vec<GenFile>, String> {
+    let mut s = String::from(HEADER);
+    s.push_str("import HipVerif.Model.RangeTy\n\nnamespace HipVerif.Gen.Ranges\nopen HipVerif.RangeTy\n\n");
+    s.push_str(&translate(repo, "src/bytes.rs", "simplify_range_mono", "simplifyRangeMono")?);
+    s.push('\n');
+    s.push_str(&translate(repo, "src/common.rs", "range_mono", "rangeMono")?);
+    s.push('\n');
+    s.push_str(&translate(repo, "src/bytes/raw.rs", "try_range_of", "tryRangeOf")?);
+    s.push_str("\nend HipVerif.Gen.Ranges\n");
+    Ok(vec![GenFile { name: "Ranges.lean".into(), content: s }])
 }
